@@ -715,11 +715,10 @@ def main():
     if len(sys.argv) < 2:
         die(__doc__)
     cmd = sys.argv[1]
+    # the registered command names its tier explicitly; VERIF_TIER only applies without --tier
     tier = os.environ.get("VERIF_TIER") or "quick"
     if "--tier" in sys.argv:
         tier = sys.argv[sys.argv.index("--tier") + 1]
-        if os.environ.get("VERIF_TIER") in ("quick", "thorough"):
-            tier = os.environ["VERIF_TIER"]
     if tier not in ("quick", "thorough"):
         die(f"unknown tier {tier}")
     try:
